@@ -676,13 +676,48 @@ theorem roundtrip_aux (hg : cu.gen = true) (hstrat : cs.tupleStrat = cu.tupleStr
           have hcls := ihm (.cls c) (.inst c fs) hx (by have := sizeOf_cls_lt_union hcm' hn; omega)
             (by simp [Ty.supG]) (by simp [Ty.unionsOK]) (by simp [conf, hcf]) hv
           have hun : un w cu (.union ucs hn) (.inst c fs) = un w cu (.cls c) (.inst c fs) := by
-            simp only [un, unAny]
+            simp only [un, unAny, unionOKB_notNT hok hcm', Bool.false_eq_true, if_false]
           rw [hun]
           have hd : un w cu (.cls c) (.inst c fs) = .dict (unFields w cu (w.fields c) fs) := by
             simp [un, htupU]
           rw [stF_union, hd, unionPick_member w cu hw hok hn hcm' fs hcf]
           simp only [hcm', if_true]
           rw [← hd]; exact hcls
+        | _ => simp [conf] at hc
+      | nt c =>
+        cases x with
+        | inst c' fs =>
+          simp only [conf, Bool.and_eq_true, beq_iff_eq] at hc
+          obtain ⟨⟨⟨hcc, hnt⟩, hnames⟩, hcT⟩ := hc
+          subst hcc
+          rw [un]; simp only [hg, if_true]
+          rw [stF_nt_some w cs (o := .coll .tuple (unT w cu (w.ntTys c) (vals fs))) (xs := unT w cu (w.ntTys c) (vals fs)) rfl,
+            if_pos hnt]
+          have hty : ∀ t' ∈ w.ntTys c, t'.supG cs.gen = true ∧ t'.unionsOK w cs.tupleStrat = true := by
+            intro t' ht'
+            simp only [World.ntTys, List.mem_map] at ht'
+            obtain ⟨f, hf, rfl⟩ := ht'
+            obtain ⟨t'', hty, hst⟩ := hws c f hf
+            simp only [Field.tyA, hty]
+            exact ⟨hst, hwu c f hf t'' hty⟩
+          have hvs : Obj.validL (vals fs) = true := by
+            have : ∀ (l : List (String × Obj)), Obj.validF l = true → Obj.validL (vals l) = true := by
+              intro l; induction l with
+              | nil => intro _; rfl
+              | cons p rest ih => obtain ⟨n', v'⟩ := p; intro h
+                                  simp only [Obj.validF, Bool.and_eq_true] at h
+                                  simp only [vals, List.map_cons, Obj.validL, Bool.and_eq_true]
+                                  exact ⟨h.1, ih h.2⟩
+            exact this fs (by simpa [Obj.valid] using hv)
+          have hsz : ∀ y ∈ vals fs, sizeOf y < sizeOf (Obj.inst c fs) := by
+            intro y hy
+            have h1 := List.sizeOf_lt_of_mem hy
+            have h2 := sizeOf_vals_lt fs
+            simp; omega
+          rw [rtT w cu cs (w.ntTys c) (vals fs) hcT (fun t' ht' y hy hcy =>
+            IHo t' y (hsz y hy) (hty t' ht').1 (hty t' ht').2 hcy (validL_mem hvs hy))]
+          simp only [Option.map_some, ntMk, Option.some.injEq, Obj.inst.injEq, true_and]
+          rw [← hnames]; exact zip_names_vals
         | _ => simp [conf] at hc
 
 theorem roundtrip (hg : cu.gen = true) (hstrat : cs.tupleStrat = cu.tupleStrat) (hforbid : cs.forbid = false)
